@@ -131,7 +131,7 @@ class P:
                 hid = log[k][0]
                 idx = sum(1 for (h, _a) in log[:k] if h == hid)
                 sc = handlers[hid][1]
-                lst = [sc[min(i, len(sc) - 1)] for i in range(idx)] + [("fail",)]
+                lst = [sc[min(i, len(sc) - 1)] for i in range(idx)] + [("fail",) if k % 5 == 0 else ("fail", k % 5)]      # (Errs of five kinds)
                 h2 = dict(handlers); h2[hid] = ("count", lst)
                 items.append(self.mk(stmts, ctx, h2, PT, ("fail-at", k)))
         return flow.mk_cases("order", items)
